@@ -1839,9 +1839,16 @@ class TrajectoryStore:
                     return None
                 return var[index]
             case (True, False, False) | (True, False, True):
-                # SpeciesValues[float] | SpeciesValues[np.ndarray]
+                # SpeciesValues[float] | SpeciesValues[np.ndarray]. The
+                # species dimension holds every species used by any field in
+                # the file: entries that were never written for this field
+                # still hold the fill value and are not part of the value.
                 return SpeciesValues(
-                    {sp: var[index, si] for si, sp in enumerate(species)}
+                    {
+                        sp: var[index, si]
+                        for si, sp in enumerate(species)
+                        if not np.all(var[index, si] == var.get_fill_value())
+                    }
                 )
             case (False, True, False):
                 # ThrustModeValues
@@ -1849,13 +1856,15 @@ class TrajectoryStore:
                     {tm: var[index, ti] for ti, tm in enumerate(ThrustMode)}
                 )
             case (True, True, False):
-                # SpeciesValues[ThrustModeValues]
+                # SpeciesValues[ThrustModeValues] (skipping species that were
+                # never written for this field, as above).
                 return SpeciesValues[ThrustModeValues](
                     {
                         sp: ThrustModeValues(
                             {tm: var[index, si, ti] for ti, tm in enumerate(ThrustMode)}
                         )
                         for si, sp in enumerate(species)
+                        if not np.all(var[index, si] == var.get_fill_value())
                     }
                 )
             case _:
